@@ -81,7 +81,7 @@ class Spec(PropSpec):
     subsys = "Link"
     props_file = "C14.v"
     theorems = ["c14_delay_in_bounds", "c14_send_stamp", "c14_maturity", "c14_window", "c14_override",
-                "c14_override_persists", "c14_global_max", "c14_fifo_equal_latency", "c14_delivered", "c14_not_early", "c14_on_time", "c14_noop_erasure", "c14_nonvacuous"]
+                "c14_override_persists", "c14_global_max", "c14_fifo_equal_latency", "c14_delivered", "c14_not_early", "c14_on_time", "c14_noop_erasure", "c14_topology_not_early", "c14_nonvacuous"]
     consts = LINK_CONSTS
     anchors = LINK_ANCHORS + [("crates/turmoil/src/top.rs", f) for f in (
         "set_max_message_latency", "set_link_message_latency", "set_link_max_message_latency")]
